@@ -352,6 +352,13 @@ class SyncInterpreter(BaseInterpreter[TContext, TEvent]):
         limit = getattr(self.machine, "max_iterations", 1000)
         try:
             while self._event_queue:
+                # 🏁 A machine that has completed, failed or been stopped
+                #    processes nothing further: events queued behind the one
+                #    that finished it are dropped, exactly as `send()` drops
+                #    later ones (and as the async run loop does).
+                if self.status != "running":
+                    self._event_queue.clear()
+                    break
                 processed += 1
                 if processed > limit:
                     logger.error(
